@@ -42,12 +42,19 @@ def env_st(draw, cents, nmax_pts=4):
            for _ in range(nn)]
     # keep evaluation points off the nuclei (ESP would be infinite there)
     def clear(p):
+        # keep evaluation points off the nuclei (the ESP is infinite there) but allow them as close as 1e-3 bohr
         for _ in range(20):
-            if all(sum((a - b) ** 2 for a, b in zip(p, c)) > 0.05 ** 2 for c in nuc):
+            if all(sum((a - b) ** 2 for a, b in zip(p, c)) > 1e-3 ** 2 for c in nuc):
                 return p
-            p = [p[0] + 0.37, p[1] + 0.11, p[2]]
+            p = [p[0] + 0.0037, p[1] + 0.0011, p[2]]
         return p
 
+    if draw(st.integers(0, 2)) == 0:  # a point 1e-3 .. 1e-2 bohr from a nucleus
+        c0 = nuc[0]
+        ax = draw(st.integers(0, 2))
+        p0 = list(c0)
+        p0[ax] += draw(st.sampled_from([1.5e-3, 4e-3, 1e-2, -2e-3]))
+        pts = pts + [p0]
     pts = [clear(p) for p in pts]
     q = [draw(gen.log_uniform(0.3, 20.0)) * (1 if draw(st.booleans()) else -1) for _ in range(nn)]
     orders = draw(st.lists(st.tuples(*[st.integers(0, 3)] * 3), min_size=1, max_size=3))
